@@ -32,7 +32,8 @@ OutT(s, a) == CASE a.t = "Start" -> [Out(s, [t |-> "Restart"]) EXCEPT !.load = "
                 [] OTHER -> Out(s, a)
 ConesT(s, a) == IF a.t \in {"Start", "Cycle"}
                 THEN [C26 |-> IF a.t = "Cycle" THEN {"disk", "usable"} ELSE {},
-                      C27 |-> {"disk", "out.res", "out.load", "usable", "panic"}]
+                      C27 |-> IF a.t = "Start" THEN {"disk", "out.res", "out.load", "usable", "panic"}
+                              ELSE {"out.load", "usable", "panic"}]   \* Cycle: the file is the published set (content: C26)
                 ELSE Cones(s, a)
 
 DiskEq(e, o) == /\ e.exists = o.exists
